@@ -9,12 +9,15 @@ PRELUDE = ["struct Foo (fa, fb)", "struct Bar (ba)"]
 
 
 # ------------------------------------------------------------------ values
-def val_src(v):
+def val_src(v, big=False):
+    """big: integers (also inside lists / vectors / struct instances) are written so that the SAME value is
+    held in big representation - what arithmetic on large numbers leaves behind (2^70 - 2^70 + n)"""
     t = v["t"]
     if t == "null":
         return "null"
     if t == "int":
-        return str(v["i"]) if v["i"] >= 0 else "(-%d)" % -v["i"]
+        plain = str(v["i"]) if v["i"] >= 0 else "(-%d)" % -v["i"]
+        return "(2^70 - 2^70 + %s)" % plain if big else plain
     if t == "rat":
         return "(%s/%d)" % (str(v["n"]) if v["n"] >= 0 else "(-%d)" % -v["n"], v["d"])
     if t == "float":
@@ -25,7 +28,7 @@ def val_src(v):
     if t == "str":
         return "\"" + "".join(v["v"]) + "\""
     if t == "list":
-        return "[" + ", ".join(val_src(x) for x in v["v"]) + "]"
+        return "[" + ", ".join(val_src(x, big) for x in v["v"]) + "]"
     if t == "vec":
         return "V(" + ", ".join(val_src(x) for x in v["v"]) + ")"
     if t == "bytes":
@@ -37,7 +40,7 @@ def val_src(v):
     if t == "dict":
         return "{" + ", ".join("%s: %s" % (val_src(k), val_src(w)) for k, w in zip(v["ks"], v["vs"])) + "}"
     if t == "inst":
-        return "%s(%s)" % (v["name"], ", ".join(val_src(x) for x in v["v"]))
+        return "%s(%s)" % (v["name"], ", ".join(val_src(x, big) for x in v["v"]))
     if t in ("func", "type"):
         return v["name"]
     raise ValueError(t)
@@ -207,8 +210,11 @@ def contexts(p, v):
         out.append(("decl", "%s = %s" % (pat_src(p, True), vs)))
     else:
         out.append(("decl", "%s := %s" % (pat_src(p, True), vs)))
-    out.append(("switch", "switch (%s) case %s -> [\"arm\", NAMES] case _ -> \"nomatch\"" % (vs, pat_src(p, True))))
-    out.append(("catch", "try (throw %s) catch %s -> [\"arm\", NAMES]" % (vs, pat_src(p, True))))
+    # literals match by `==`, whatever the representation of an integer: where the pattern contains a
+    # literal, the switch and catch contexts get the value with its integers in big representation
+    vsb = val_src(v, big=True) if has_lit else vs
+    out.append(("switch", "switch (%s) case %s -> [\"arm\", NAMES] case _ -> \"nomatch\"" % (vsb, pat_src(p, True))))
+    out.append(("catch", "try (throw %s) catch %s -> [\"arm\", NAMES]" % (vsb, pat_src(p, True))))
     if not has_lit:
         out.append(("for", "for (%s <- [%s]) yield [\"arm\", NAMES]" % (pat_src(p, True), vs)))
         if p["k"] != "splat":
